@@ -118,10 +118,13 @@ func (m *zzG11Mock) ServeDNS(w dns.ResponseWriter, req *dns.Msg) {
 	if len(req.Question) == 1 {
 		q := req.Question[0]
 		hdr := dns.RR_Header{Name: q.Name, Rrtype: q.Qtype, Class: dns.ClassINET, Ttl: 60}
-		switch q.Qtype {
-		case dns.TypeA:
+		switch {
+		case q.Name == "test.":
+			// The name test_upstream_dns asks for: a working upstream knows
+			// nothing about it.
+		case q.Qtype == dns.TypeA:
 			resp.Answer = append(resp.Answer, &dns.A{Hdr: hdr, A: zzG11MockA(m.idx)})
-		case dns.TypePTR:
+		case q.Qtype == dns.TypePTR:
 			resp.Answer = append(resp.Answer, &dns.PTR{Hdr: hdr, Ptr: zzG11MockPTR(m.idx)})
 		}
 	}
@@ -401,6 +404,27 @@ func (r *zzG11Rig) setConfig(body map[string]any) (code int, text string) {
 	return w.Code, strings.TrimSpace(w.Body.String())
 }
 
+// testUpstreams posts body to the real test_upstream_dns handler.
+func (r *zzG11Rig) testUpstreams(body map[string]any) (code int, res map[string]string, text string) {
+	b, err := json.Marshal(body)
+	if err != nil {
+		panic(err)
+	}
+
+	req := httptest.NewRequest(http.MethodPost, "http://agh.test/control/test_upstream_dns", bytes.NewReader(b))
+	w := httptest.NewRecorder()
+	r.srv.handleTestUpstreamDNS(w, req)
+	text = strings.TrimSpace(w.Body.String())
+	res = map[string]string{}
+	if w.Code == http.StatusOK {
+		if err = json.Unmarshal(w.Body.Bytes(), &res); err != nil {
+			return w.Code, nil, text
+		}
+	}
+
+	return w.Code, res, text
+}
+
 // zzG11Info is the part of GET /control/dns_info the property talks about.
 type zzG11Info struct {
 	Up   []string `json:"upstream_dns"`
@@ -641,11 +665,21 @@ type zzG11Step struct {
 	A    string     `json:"a"`
 	Req  *zzG11Req  `json:"req,omitempty"`
 	Res  []zzG11Res `json:"res,omitempty"`
+	Out  *zzG11Test `json:"out,omitempty"`
 	U    string     `json:"u,omitempty"`
 	On   bool       `json:"on,omitempty"`
 	Loc  string     `json:"loc,omitempty"`
 	Q    *zzG11Q    `json:"q,omitempty"`
 	Alts []zzG11Alt `json:"alts,omitempty"`
+}
+
+// zzG11Test is the specification's outcome of POST /control/test_upstream_dns:
+// the upstreams reported "OK", the ones reported with an error, and the lists
+// whose invalid line is reported with an error.
+type zzG11Test struct {
+	OK    []string `json:"ok"`
+	NotOK []string `json:"notok"`
+	Parse []string `json:"parse"`
 }
 
 type zzG11Tour struct {
@@ -684,6 +718,8 @@ type zzG11Conc struct {
 	// plain switches the decorations (comments, empty lines, letter case,
 	// merged and split section lines) off.
 	plain bool
+	// lastBad is the invalid line of the list rendered last.
+	lastBad string
 }
 
 func zzG11NewConc(r *zzG11Rig, seed int64) (c *zzG11Conc) {
@@ -827,7 +863,8 @@ func (c *zzG11Conc) list(field string, l *zzG11List) (lines []string) {
 	}
 
 	if l.Bad != "ok" {
-		lines = append(lines, c.badLine(rng, field, l.Bad))
+		c.lastBad = c.badLine(rng, field, l.Bad)
+		lines = append(lines, c.lastBad)
 	}
 
 	if !c.plain {
@@ -1077,6 +1114,57 @@ func zzG11Run(tour *zzG11Tour, ip netip.Addr, seed int64, only int, plain bool) 
 			}
 
 			cur = &res.Cfg
+		case "test":
+			if only >= 0 && i != only {
+				continue
+			}
+
+			body := map[string]any{"bootstrap_dns": []string{"192.0.2.53"}}
+			badLines := map[string]string{}
+			for _, f := range []struct {
+				name, key string
+				l         *zzG11List
+			}{{"up", "upstream_dns", &st.Req.Up}, {"fb", "fallback_dns", &st.Req.Fb}, {"ptr", "private_upstream", &st.Req.Ptr}} {
+				body[f.key] = conc.list(f.name, f.l)
+				if f.l.Bad != "ok" {
+					badLines[f.name] = conc.lastBad
+				}
+			}
+
+			code, res, text := rig.testUpstreams(body)
+			stats["test"]++
+			bj, _ := json.Marshal(body)
+			concrete = append(concrete, fmt.Sprintf("POST test_upstream_dns %s -> %d %s", bj, code, text))
+			var ds []string
+			if code != http.StatusOK {
+				ds = append(ds, fmt.Sprintf("status %d", code))
+			}
+			for _, u := range st.Out.OK {
+				if v, ok := res[conc.addr(u)]; !ok || v != "OK" {
+					ds = append(ds, fmt.Sprintf("%s (%s, responding) reported as %q", u, conc.addr(u), v))
+				}
+			}
+			for _, u := range st.Out.NotOK {
+				if v, ok := res[conc.addr(u)]; !ok || v == "OK" {
+					ds = append(ds, fmt.Sprintf("%s (%s, not responding) reported as %q", u, conc.addr(u), v))
+				}
+			}
+			for _, f := range st.Out.Parse {
+				if v, ok := res[badLines[f]]; !ok || v == "OK" {
+					ds = append(ds, fmt.Sprintf("the invalid line %q reported as %q", badLines[f], v))
+				}
+			}
+
+			info, ierr := rig.info()
+			if ierr != nil {
+				return nil, stats, ierr
+			}
+			if d := conc.infoDiff(info, cur, tour.Sys); d != "" {
+				ds = append(ds, "the test changed the configuration: "+d)
+			}
+			if len(ds) > 0 {
+				return mk(i, "test_upstream_dns: "+strings.Join(ds, "; "), map[string]any{"code": code, "res": res}), stats, nil
+			}
 		case "down":
 			rig.mocks[zzG11UpIdx(st.U)].setDown(st.On)
 			concrete = append(concrete, fmt.Sprintf("%s down=%v", st.U, st.On))
@@ -1237,7 +1325,7 @@ type zzG11Gen struct {
 }
 
 var (
-	zzG11Tlds   = []string{"com", "net", "test"}
+	zzG11Tlds   = []string{"com", "net", "org"}
 	zzG11Second = []string{"example", "corp", "a-b"}
 	zzG11Third  = []string{"www", "mail", "x1"}
 	zzG11Fourth = []string{"a", "b"}
